@@ -5,6 +5,7 @@ documents that were written without an error) and for Chars::next that log
 what was written / read in the state's ghost store.  The rules then compare,
 per path through one loop iteration, what was emitted or consumed with what
 RFC 6690 quoted-string needs, as a function of the character read."""
+import os
 from harness import *
 import summaries
 import summaries2
@@ -95,6 +96,9 @@ def instrument2(I):
             return None
         for s, v in res:
             prev = s.cells.get(("gh", "r0"))
+            prev1 = s.cells.get(("gh", "r1"))
+            if prev1 is not None:
+                s.cells[("gh", "r2")] = prev1
             if prev is not None:
                 s.cells[("gh", "r1")] = prev
             if isinstance(v, EnumV) and list(v.variants) == [1] and isinstance(v.variants[1], StructV):
@@ -280,71 +284,187 @@ def check_scanner(prog, rep, body, inner_heads, tag, site, self_setup=None):
             if cls != "quote":
                 bad.append("the quoted string is ended by a character that is not a quote")
     I.loop_hooks.append(lhook)
+    # no character is passed over unscanned: every read happens at or before the furthest position the scanner
+    # has read up to (the frontier), which starts at the beginning of the unparsed input.  An iterator made over
+    # a later part of the input (found by a search that knows nothing about quotes) reads past the frontier.
+    skips, nreads = [], [0]
+    inner = None
+    if args and isinstance(args[0], RefV):
+        sty = prog.ty(body["locals"][1]["ty"], subst)
+        me = I.ensure(st, args[0].place, sty[2] if sty[0] == "ref" else None, "self")
+        fts = I.field_types(sty[2]) if sty[0] == "ref" else None
+        if isinstance(me, StructV) and fts:
+            inner = I.ensure(st, args[0].place.extend(("f", 0)), fts[0], "self.inner")
+    if isinstance(inner, SliceV) and inner.base is not None:
+        st.cells[("gh", "frontier")] = IntV(inner.off, (64, False))
+        scan_next = I.extra_models[NEXT]
+
+        def m_next_frontier(I_, st_, call):
+            ref = call.args[0]
+            it = I_.read(st_, ref.place) if isinstance(ref, RefV) else None
+            fr = st_.cells.get(("gh", "frontier"))
+            if I_.recording:
+                nreads[0] += 1
+                if not (isinstance(it, OpaqueV) and it.get("iter") == "chars" and it.get("base") == inner.base and isinstance(fr, IntV)):
+                    skips.append("a character is read from an iterator that is not shown to run over the unparsed input")
+                elif not st_.entails(fr.aff - it.get("pos")):
+                    if os.environ.get("VERIF_DEBUG_C16"):
+                        print("SKIP at", call.site, "frontier", fr.aff, "pos", it.get("pos"), list(st_.facts)[:20])
+                    skips.append("a character is read beyond the furthest position scanned so far: the characters in between "
+                                 "are never examined, so a separator found there may lie inside a quoted string")
+            res = scan_next(I_, st_, call)
+            for s2, v in res or ():
+                it2 = I_.read(s2, ref.place) if isinstance(ref, RefV) else None
+                if isinstance(it2, OpaqueV) and it2.get("iter") == "chars":
+                    s2.cells[("gh", "frontier")] = IntV(it2.get("pos"), (64, False))
+            return res
+        I.extra_models[NEXT] = m_next_frontier
+    else:
+        skips.append("the unparsed input (field 0 of the scanner) was not found")
     I.no_join_bodies.add(body["id"])
     I.unroll_max_blocks = 0
     I, res = run(prog, body, args=args, st=st, I=I)
     rep.analysed.update(prog.bodies[b]["path"] for b in I.visited_bodies if b in prog.bodies)
+    rep.ob("C16.5", "%s|scans-every-character" % tag, not skips and nreads[0] >= 3,
+           "%s: %s (reads checked: %d)" % (body["path"], "; ".join(sorted(set(skips))[:2]) or "too few reads", nreads[0]), site,
+           sample={"rule": "C16.5", "scanner": tag, "reads": nreads[0]})
     rep.ob("C16.5", "%s|in-quote-step" % tag, not bad and n[0] >= 2 and n[1] >= 2,
            "%s: %s (step paths: %d, exit paths: %d)" % (body["path"], "; ".join(sorted(set(bad))[:2]) or "the in-quote loop was not found", n[0], n[1]), site,
            sample={"rule": "C16.5", "scanner": tag, "step_paths": n[0], "exit_paths": n[1]})
 
 
+def _quoted_step(s, reads, vals, rv):
+    """one step of the quoted-string reader: `reads` (log entries) / `vals` (values, in reading order) are what
+    the step consumed, rv what the call returned.  -> list of complaints"""
+    is_none = isinstance(rv, EnumV) and list(rv.variants) == [0]
+    some = rv.variants[1].fields[0] if isinstance(rv, EnumV) and list(rv.variants) == [1] and isinstance(rv.variants[1], StructV) else None
+    if not reads or len(reads) > 2:
+        return ["one quoted step reads %d characters" % len(reads)]
+    if reads[0][0] == "none":
+        return [] if is_none else ["yields a character after the input ended"]
+    c0 = vals[0]
+    cls = char_class(s, c0.aff) if isinstance(c0, IntV) else None
+    if cls is None:
+        return ["one path serves a quote or a backslash and other characters alike"]
+    if cls == "quote":
+        if not is_none or len(reads) != 1:
+            return ["an unescaped quote does not end the value"]
+    elif cls == "other":
+        if len(reads) != 1 or not (isinstance(some, IntV) and some.aff == c0.aff):
+            return ["a plain character is not yielded as it is"]
+    elif cls == "esc":
+        if len(reads) != 2:
+            return ["a backslash is not followed by reading the escaped character"]
+        if reads[1][0] == "none":
+            if not is_none:
+                return ["a trailing backslash yields a character"]
+        elif not (isinstance(some, IntV) and isinstance(vals[1], IntV) and some.aff == vals[1].aff):
+            return ["the character after a backslash is not yielded verbatim"]
+    return []
+
+
 def check_unquote(prog, rep, body, site):
-    """C16.6: in the Quoted state Unquote::next yields c for a plain character, the following character
-    verbatim after a backslash, and ends at a quote"""
-    I = new_interp(prog)
-    if not instrument2(I):
-        rep.missing("C16.6", "model of Chars::next")
-        return
-    st = State()
-    subst = prog.body_subst(body, ())
-    args = [I.mat(st, prog.ty(body["locals"][1]["ty"], subst), "self")]
-    me = I.ensure(st, args[0].place, None, "unquote") if isinstance(args[0], RefV) else None
+    """C16.6: Unquote::next as a transducer over the characters read, per starting state.  Quoted: yields c
+    for a plain character, the following character verbatim after a backslash, ends at a quote.  NotStarted:
+    a leading quote is swallowed, the state becomes Quoted and the rest of the call is one Quoted step;
+    any other first character is yielded as it is and the state becomes NotQuoted.  NotQuoted: every
+    character is yielded as it is."""
     a = prog.adts.get("link_format::Unquote")
     sa = prog.adts.get("link_format::UnquoteState")
     si = [i for i, f in enumerate(a["variants"][0]["fields"]) if f["name"] == "state"] if a else []
-    qv = [i for i, v in enumerate(sa["variants"]) if v["name"] == "Quoted"] if sa else []
-    if not (isinstance(me, StructV) and si and qv):
-        rep.missing("C16.6", "Unquote.state / UnquoteState::Quoted")
+    VI = {v["name"]: i for i, v in enumerate(sa["variants"])} if sa else {}
+    if not (si and all(k in VI for k in ("NotStarted", "NotQuoted", "Quoted"))):
+        rep.missing("C16.6", "Unquote.state / UnquoteState::{NotStarted, NotQuoted, Quoted}")
         return
-    I.write(st, Place(args[0].place.key, args[0].place.proj + (("f", si[0]),)), EnumV("link_format::UnquoteState", {qv[0]: StructV([])}, None))
-    I.no_join_bodies.add(body["id"])
-    I, res = run(prog, body, args=args, st=st, I=I)
-    rep.analysed.update(prog.bodies[b]["path"] for b in I.visited_bodies if b in prog.bodies)
+
+    def run_from(start):
+        I = new_interp(prog)
+        if not instrument2(I):
+            rep.missing("C16.6", "model of Chars::next")
+            return None
+        st = State()
+        subst = prog.body_subst(body, ())
+        args = [I.mat(st, prog.ty(body["locals"][1]["ty"], subst), "self")]
+        me = I.ensure(st, args[0].place, None, "unquote") if isinstance(args[0], RefV) else None
+        if not isinstance(me, StructV):
+            rep.missing("C16.6", "Unquote value")
+            return None
+        splace = Place(args[0].place.key, args[0].place.proj + (("f", si[0]),))
+        I.write(st, splace, EnumV("link_format::UnquoteState", {VI[start]: StructV([])}, None))
+        I.no_join_bodies.add(body["id"])
+        I, res = run(prog, body, args=args, st=st, I=I)
+        rep.analysed.update(prog.bodies[b]["path"] for b in I.visited_bodies if b in prog.bodies)
+        out = []
+        for s, rv in res:
+            reads = tuple(s.ghost.get("r", ()))
+            cells = [s.cells.get(("gh", "r%d" % k)) for k in range(3)]
+            vals = list(reversed(cells[:len(reads)])) if len(reads) <= 3 else None
+            sv = I.read(s, splace)
+            after = sorted(sv.variants) if isinstance(sv, EnumV) else None
+            out.append((s, rv, reads, vals, after))
+        return out
+
+    # --- Quoted
     bad, n = [], 0
-    for s, rv in res:
+    for s, rv, reads, vals, after in run_from("Quoted") or ():
         n += 1
-        reads = tuple(s.ghost.get("r", ()))
-        r0, r1 = _cells(s)
+        if vals is None:
+            bad.append("one call reads %d characters" % len(reads))
+            continue
+        bad += _quoted_step(s, reads, vals, rv)
+    rep.ob("C16.6", "unquote|quoted-step", not bad and n >= 4,
+           "Unquote::next in the Quoted state: %s (paths: %d)" % ("; ".join(sorted(set(bad))[:2]) or "too few paths", n), site,
+           sample={"rule": "C16.6", "paths": n})
+    # --- NotStarted
+    bad, n = [], 0
+    for s, rv, reads, vals, after in run_from("NotStarted") or ():
+        n += 1
         is_none = isinstance(rv, EnumV) and list(rv.variants) == [0]
         some = rv.variants[1].fields[0] if isinstance(rv, EnumV) and list(rv.variants) == [1] and isinstance(rv.variants[1], StructV) else None
-        if not reads or len(reads) > 2:
+        if not reads or vals is None:
             bad.append("one call reads %d characters" % len(reads))
             continue
         if reads[0][0] == "none":
             if not is_none:
-                bad.append("yields a character after the input ended")
+                bad.append("yields a character from an empty value")
             continue
-        c0 = r0 if len(reads) == 1 else r1
-        cls = char_class(s, c0.aff) if isinstance(c0, IntV) else None
-        if cls is None:
-            bad.append("one path serves a backslash and other characters alike")
-        elif cls == "quote":
-            if not is_none or len(reads) != 1:
-                bad.append("an unescaped quote does not end the value")
-        elif cls == "other":
+        c0 = vals[0]
+        if not isinstance(c0, IntV):
+            bad.append("first character not tracked")
+        elif s.range(c0.aff) == (QUOTE, QUOTE):
+            if after != [VI["Quoted"]]:
+                bad.append("after a leading quote the state is not Quoted")
+            if len(reads) < 2:
+                bad.append("the leading quote is handed out or ends the value instead of being swallowed")
+            else:
+                bad += ["after the leading quote: " + x for x in _quoted_step(s, reads[1:], vals[1:], rv)]
+        elif not s.may_equal_const(c0.aff, QUOTE):
             if len(reads) != 1 or not (isinstance(some, IntV) and some.aff == c0.aff):
-                bad.append("a plain character is not yielded as it is")
-        elif cls == "esc":
-            if len(reads) != 2:
-                bad.append("a backslash is not followed by reading the escaped character")
-            elif reads[1][0] == "none":
-                if not is_none:
-                    bad.append("a trailing backslash yields a character")
-            elif not (isinstance(some, IntV) and isinstance(r0, IntV) and some.aff == r0.aff):
-                bad.append("the character after a backslash is not yielded verbatim")
-    rep.ob("C16.6", "unquote|quoted-step", not bad and n >= 4,
-           "Unquote::next in the Quoted state: %s (paths: %d)" % ("; ".join(sorted(set(bad))[:2]) or "too few paths", n), site,
+                bad.append("the first character of an unquoted value is not yielded as it is")
+            if after != [VI["NotQuoted"]]:
+                bad.append("after a first character other than a quote the state is not NotQuoted")
+        else:
+            bad.append("one path serves a leading quote and other first characters alike")
+    rep.ob("C16.6", "unquote|first-step", not bad and n >= 5,
+           "Unquote::next in the NotStarted state: %s (paths: %d)" % ("; ".join(sorted(set(bad))[:2]) or "too few paths", n), site,
+           sample={"rule": "C16.6", "paths": n})
+    # --- NotQuoted
+    bad, n = [], 0
+    for s, rv, reads, vals, after in run_from("NotQuoted") or ():
+        n += 1
+        is_none = isinstance(rv, EnumV) and list(rv.variants) == [0]
+        some = rv.variants[1].fields[0] if isinstance(rv, EnumV) and list(rv.variants) == [1] and isinstance(rv.variants[1], StructV) else None
+        if len(reads) != 1 or vals is None:
+            bad.append("one call reads %d characters" % len(reads))
+        elif reads[0][0] == "none":
+            if not is_none:
+                bad.append("yields a character after the input ended")
+        elif not (isinstance(some, IntV) and isinstance(vals[0], IntV) and some.aff == vals[0].aff):
+            bad.append("a character of an unquoted value is not yielded as it is")
+        if after is not None and after != [VI["NotQuoted"]]:
+            bad.append("the state leaves NotQuoted")
+    rep.ob("C16.6", "unquote|unquoted-step", not bad and n >= 2,
+           "Unquote::next in the NotQuoted state: %s (paths: %d)" % ("; ".join(sorted(set(bad))[:2]) or "too few paths", n), site,
            sample={"rule": "C16.6", "paths": n})
 
 
